@@ -94,7 +94,18 @@ def stages(tier, rng, only=None):
               ([0, 7, 2, 1, 3, 1], [3, 3, 0, 1, 1, 2], 10)]
     out.append(ac.stage("all_optimal_with_tenths", PID, lambda: ac.cases(
         grids.datasets(3, 2)[::2] + [ac.cyclic_dataset(rng, 3, 4, incomplete=k % 3 == 2) for k in range(60 if tier == "quick" else 600)],
-        ["ExactCplex(noopt)"], tenths + ac.MIXEDMAG[2:], flags=(0,), namings=["ints", "letters", "collide"]), _nt))
+        ["ExactCplex(noopt)"], tenths + ac.MIXEDMAG[2:] + [([0, 8000000, 1, 0, 8000000, 1], [2, 2, 0, 1, 1, 0], 1),
+                                                            ([0, 8000000, 3, 0, 1, 2], [1, 1, 0, 2, 2, 0], 1),
+                                                            ([0, 8000000, 1, 0, 8000000, 1],
+                                                             [8000000, 8000000, 0, 8000000, 8000000, 2], 1),
+                                                            ([0, 8000000, 2, 1, 1, 3],
+                                                             [8000000, 8000000, 0, 2, 2, 1], 1)],
+        flags=(0,), namings=["ints", "letters", "collide"]), _nt))
+    out.append(ac.stage("ids_from_tied_buckets", PID, lambda: ac.cases(
+        [ac.tied_first(rng) for _ in range(80 if tier == "quick" else 800)],
+        ["ExactCplex(opt)", "ExactOptim1", "ExactPulp"], SCHEMES, flags=(1,), namings=["scatter", "collide", "letters"])
+        + ac.cases([ac.tied_first(rng) for _ in range(40 if tier == "quick" else 400)], ["Exact(opt)"], SCHEMES,
+                   flags=(1,), namings=["scatter", "collide"], env="standin"), _nt))
     out.append(ac.stage("eleven_plus", PID, lambda: ac.cases(
         [ac.eleven_plus_dataset(rng) for _ in range(6 if tier == "quick" else 40)],
         ["ExactPulp", "Exact(opt)", "Exact(noopt)", "ExactCplex(opt)", "ExactOptim1"], SCHEMES, flags=(1,)), _nt))
